@@ -25,7 +25,7 @@ Depth     == atoi(IOEnv.DEPTH)
 WithSerde == IOEnv.SERDE = "1"
 
 Obj  == 1..3
-Cls  == {"A", "B"}
+Cls  == {"A", "B", "Am", "Bm"}        \* Am, Bm: the value after the (idempotent) mutation of a mutable type (weighted tree: update)
 Rng  == 1..2
 Seed == 1..2
 
@@ -66,6 +66,10 @@ Iter(o, r) ==
 Clone(o, from)   == o # from /\ cls' = [cls EXCEPT ![o] = cls[from]] /\ Step([op |-> "clone", o |-> o, r |-> 0, a |-> from]) /\ UNCHANGED <<st, seen, revisits>>
 Rebuild(o, from) == o # from /\ cls' = [cls EXCEPT ![o] = cls[from]] /\ Step([op |-> "rebuild", o |-> o, r |-> 0, a |-> from]) /\ UNCHANGED <<st, seen, revisits>>
 RoundTrip(o, from) == WithSerde /\ cls' = [cls EXCEPT ![o] = cls[from]] /\ Step([op |-> "roundtrip", o |-> o, r |-> 0, a |-> from]) /\ UNCHANGED <<st, seen, revisits>>
+\* a mutating method (WeightedTreeIndex::update): the object denotes a different value afterwards; a value rebuilt
+\* from equal parameters (or cloned) afterwards belongs to the same new class.  Applying it twice changes nothing more.
+MutOf(c) == IF c = "A" THEN "Am" ELSE IF c = "B" THEN "Bm" ELSE c
+Mutate(o)        == cls' = [cls EXCEPT ![o] = MutOf(cls[o])] /\ Step([op |-> "mutate", o |-> o, r |-> 0, a |-> 0]) /\ UNCHANGED <<st, seen, revisits>>
 EqCall(a, b)     == a < b /\ Step([op |-> "eq", o |-> a, r |-> 0, a |-> b]) /\ UNCHANGED <<cls, st, seen, revisits>>
 Dbg(o)           == Step([op |-> "dbg", o |-> o, r |-> 0, a |-> 0]) /\ UNCHANGED <<cls, st, seen, revisits>>
 RngClone(r, from) == r # from /\ st' = [st EXCEPT ![r] = st[from]] /\ Step([op |-> "rngclone", o |-> 0, r |-> r, a |-> from]) /\ UNCHANGED <<cls, seen, revisits>>
@@ -75,7 +79,7 @@ Next == /\ Len(hist) < Depth
         /\ \/ \E o \in Obj, r \in Rng : Sample(o, r) \/ Iter(o, r)
            \/ \E o \in Obj, f \in Obj : Clone(o, f) \/ Rebuild(o, f) \/ RoundTrip(o, f)
            \/ \E a \in Obj, b \in Obj : EqCall(a, b)
-           \/ \E o \in Obj : Dbg(o)
+           \/ \E o \in Obj : Dbg(o) \/ Mutate(o)
            \/ \E r \in Rng, f \in Rng : RngClone(r, f)
            \/ \E r \in Rng, s \in Seed : Reseed(r, s)
 
@@ -86,7 +90,7 @@ TypeOK == /\ cls \in [Obj -> Cls]
           /\ \A r \in Rng : st[r][1] \in Seed
           /\ revisits <= 2 * Len(hist)
 \* sampling never changes a class; only clone/rebuild/roundtrip assign one, and only an existing one
-ClassStable == [][\A o \in Obj : cls'[o] # cls[o] => \E f \in Obj : cls'[o] = cls[f]]_vars
+ClassStable == [][\A o \in Obj : cls'[o] # cls[o] => (\E f \in Obj : cls'[o] = cls[f]) \/ cls'[o] = MutOf(cls[o])]_vars
 
 \* a schedule is worth replaying if it revisits a key (same class, same RNG state, different history)
 Emit == (Len(hist) = Depth /\ revisits >= 1) => PrintT(<<"SCHED", ToJson(hist)>>)
